@@ -231,6 +231,9 @@ func (env *SpecEnv) eval(e *SExpr) SVal {
 		return SVal{T: MkDT(c.SSlice, Field(x.T, 0), c.WAdd(Field(x.T, 1), lo), c.WSub(hi, lo), c.WSub(Field(x.T, 3), lo)), Typ: x.Typ}
 	case "typeassert":
 		x := env.eval(e.Args[0])
+		if x.NoCall {
+			return x
+		}
 		t := fv.eng.parseType(e.Val, env.pkg)
 		return SVal{T: c.Func("unbox_"+sanitize(typeKey(t)), c.SortOf(t), x.T), Typ: t}
 	}
